@@ -1,8 +1,10 @@
 package main
 
 import (
+	"bytes"
 	"fmt"
 	"go/ast"
+	"go/printer"
 	"go/token"
 	"sort"
 	"strings"
@@ -516,7 +518,311 @@ func extractCodec(w *strings.Builder) error {
 	}
 	fmt.Fprintf(w, "def timestampEncodeLayout : String := %s\n", leanStr(tsLayoutEnc))
 	fmt.Fprintf(w, "def timestampDecodeLayout : String := %s\n", leanStr(tsLayoutDec))
+	// ---- round 4: control-flow shape of the modelled functions that had no fact yet.
+	// `ifShape f` = every `if` of f in source order (function literals included) with the exact
+	// condition text and what its body does directly: "err" (the last result of its return is not the
+	// literal nil: an error value or an `err` variable), "nil" (returns with a literal nil as last
+	// result), "value" (returns the single value true / false), "return" (bare return),
+	// "none" (no return directly in the body); a plain `else` block is listed as cond "else".
+	shapes := []struct{ lean, file, fn string }{
+		{"decodeOneofInnerIfs", "internal/codec/decoder.go", "decodeOneofInner"},
+		{"decodeOneofPropertyIfs", "internal/codec/decoder.go", "decodeOneofProperty"},
+		{"decodeAnyIfs", "internal/codec/decoder.go", "decodeAny"},
+		{"jsonObjectBodyIfs", "internal/codec/decoder.go", "jsonObjectBody"},
+		{"decodeScalarIfs", "internal/codec/decoder.go", "decodeScalar"},
+		{"decodeEnumIfs", "internal/codec/decoder.go", "decodeEnum"},
+		{"decodeObjectPropertyIfs", "internal/codec/decoder.go", "decodeObjectProperty"},
+		{"decodeObjectInnerIfs", "internal/codec/decoder.go", "decodeObjectInner"},
+		{"decodeMapPropertyIfs", "internal/codec/decoder.go", "decodeMapProperty"},
+		{"decodeMapFieldIfs", "internal/codec/decoder.go", "decodeMapField"},
+		{"decodeArrayPropertyIfs", "internal/codec/decoder.go", "decodeArrayProperty"},
+		{"decodeArrayFieldValueIfs", "internal/codec/decoder.go", "decodeArrayFieldValue"},
+		{"expectDelimOrNullIfs", "internal/codec/decoder.go", "expectDelimOrNull"},
+		{"expectDelimIfs", "internal/codec/decoder.go", "expectDelim"},
+		{"popValueAsBytesIfs", "internal/codec/decoder.go", "popValueAsBytes"},
+		{"encodeObjectBodyIfs", "internal/codec/structure_encode.go", "encodeObjectBody"},
+		{"encodeMapIfs", "internal/codec/structure_encode.go", "encodeMap"},
+		{"encodeArrayIfs", "internal/codec/structure_encode.go", "encodeArray"},
+		{"encodeEnumIfs", "internal/codec/structure_encode.go", "encodeEnum"},
+		{"decodeQueryIfs", "internal/codec/query.go", "decodeQuery"},
+		{"propertyAtPathIfs", "internal/codec/query.go", "propertyAtPath"},
+		{"queryGoValueIfs", "internal/codec/query.go", "queryGoValue"},
+		{"encodeAnyIfs", "internal/codec/structure_encode.go", "encodeAny"},
+		{"encodeOneofBodyIfs", "internal/codec/structure_encode.go", "encodeOneofBody"},
+	}
+	parsed := map[string]*ast.File{"internal/codec/decoder.go": dec, "internal/codec/structure_encode.go": enc}
+	if _, qf, err := parseFile("internal/codec/query.go"); err == nil {
+		parsed["internal/codec/query.go"] = qf
+	} else {
+		unknown("internal/codec/query.go")
+	}
+	for _, sh := range shapes {
+		var facts []ifFact
+		if f := parsed[sh.file]; f != nil {
+			if fd := funcDecl(f, sh.fn); fd != nil && fd.Body != nil {
+				facts = ifShape(fd.Body)
+			} else {
+				unknown("func " + sh.fn)
+				facts = []ifFact{{"<unknown>", "<unknown>"}}
+			}
+		} else {
+			facts = []ifFact{{"<unknown>", "<unknown>"}}
+		}
+		fmt.Fprintf(w, "def %s : List (String × String) := [", sh.lean)
+		for i, f := range facts {
+			if i > 0 {
+				fmt.Fprint(w, ",")
+			}
+			fmt.Fprintf(w, "\n  (%s, %s)", leanStr(f.cond), leanStr(f.ret))
+		}
+		fmt.Fprintln(w, "]")
+	}
+
+	// the type switches of decodeMapField (item kinds of a map) and decodeRootNested (root kinds)
+	for _, ts := range []struct{ lean, fn, tag string }{
+		{"decodeMapField", "decodeMapField", "field"}, {"decodeRootNested", "decodeRootNested", "root"}} {
+		cases := []string{"<unknown>"}
+		defErr := false
+		if fd := funcDecl(dec, ts.fn); fd != nil && fd.Body != nil {
+			if sw := findSwitch(fd.Body, ts.tag); sw != nil {
+				cases = nil
+				for _, cc := range clausesOf(sw) {
+					for _, n := range caseNames(cc) {
+						if n == "default" {
+							defErr = lastReturnIsError(cc)
+							continue
+						}
+						cases = append(cases, n)
+					}
+				}
+			} else {
+				unknown("type switch in " + ts.fn)
+			}
+		} else {
+			unknown("func " + ts.fn)
+		}
+		fmt.Fprintf(w, "def %sCases : List String := %s\n", ts.lean, leanStrList(cases))
+		fmt.Fprintf(w, "def %sDefaultIsError : Bool := %s\n", ts.lean, leanBool(defErr))
+	}
+
+	// the member names the encoder writes literally, in source order (`enc.fieldLabel(<arg>)`;
+	// a non-literal argument is listed as "<expr>")
+	for _, lb := range []struct{ lean, fn string }{{"encodeAnyLabels", "encodeAny"}, {"encodeOneofBodyLabels", "encodeOneofBody"}} {
+		labels := []string{"<unknown>"}
+		if fd := funcDecl(enc, lb.fn); fd != nil && fd.Body != nil {
+			labels = callLiteralArgs(fd.Body, "enc.fieldLabel", 0)
+		} else {
+			unknown("func " + lb.fn)
+		}
+		fmt.Fprintf(w, "def %s : List String := %s\n", lb.lean, leanStrList(labels))
+	}
+	// what follows the labels in encodeAny: addString(<type name expr>) and add(<data expr>)
+	anyTypeArg, anyDataArg := []string{"<unknown>"}, []string{"<unknown>"}
+	if fd := funcDecl(enc, "encodeAny"); fd != nil && fd.Body != nil {
+		anyTypeArg = callArgTexts(fd.Body, "enc.addString", 0)
+		anyDataArg = callArgTexts(fd.Body, "enc.add", 0)
+	}
+	fmt.Fprintf(w, "def encodeAnyTypeArgs : List String := %s\n", leanStrList(anyTypeArg))
+	fmt.Fprintf(w, "def encodeAnyDataArgs : List String := %s\n", leanStrList(anyDataArg))
+
+	// decoder constants: maxAnyDepth, the depth handed to the nested decode, the reserved keys
+	maxAny := "0 -- <unknown>"
+	for _, d := range dec.Decls {
+		if gd, isG := d.(*ast.GenDecl); isG && gd.Tok == token.CONST {
+			for _, sp := range gd.Specs {
+				vs := sp.(*ast.ValueSpec)
+				for i, n := range vs.Names {
+					if n.Name == "maxAnyDepth" && i < len(vs.Values) {
+						if bl, isB := vs.Values[i].(*ast.BasicLit); isB && bl.Kind == token.INT && isDecimal(bl.Value) {
+							maxAny = bl.Value
+						}
+					}
+				}
+			}
+		}
+	}
+	if strings.Contains(maxAny, "unknown") {
+		unknown("const maxAnyDepth")
+	}
+	fmt.Fprintf(w, "def maxAnyDepthConst : Nat := %s\n", maxAny)
+	nestedArgs := []string{"<unknown>"}
+	if fd := funcDecl(dec, "decodeAny"); fd != nil && fd.Body != nil {
+		nestedArgs = callArgTexts(fd.Body, "dec.codec.decodeNested", 2)
+	}
+	fmt.Fprintf(w, "def decodeAnyNestedDepthArgs : List String := %s\n", leanStrList(nestedArgs))
+	rootDepthArgs := []string{"<unknown>"}
+	if fd := funcDecl(dec, "decode"); fd != nil && fd.Body != nil {
+		rootDepthArgs = callArgTexts(fd.Body, "c.decodeNested", 2)
+	}
+	if fd := funcDecl(dec, "decodeRoot"); fd != nil && fd.Body != nil {
+		rootDepthArgs = append(rootDepthArgs, callArgTexts(fd.Body, "c.decodeRootNested", 2)...)
+	}
+	fmt.Fprintf(w, "def decodeRootDepthArgs : List String := %s\n", leanStrList(rootDepthArgs))
+
+	// query.go: the separator of the key path, the literals queryGoValue turns into booleans
+	splitArgs := []string{"<unknown>"}
+	boolCases := [][2]string{{"<unknown>", "<unknown>"}}
+	if qf := parsed["internal/codec/query.go"]; qf != nil {
+		if fd := funcDecl(qf, "propertyAtPath"); fd != nil && fd.Body != nil {
+			splitArgs = callArgTexts(fd.Body, "strings.Split", 1)
+		}
+		if fd := funcDecl(qf, "queryGoValue"); fd != nil && fd.Body != nil {
+			if sw := findSwitch(fd.Body, "value"); sw != nil {
+				boolCases = nil
+				for _, cc := range clausesOf(sw) {
+					ret := "<none>"
+					for _, st := range cc.Body {
+						if rs, isR := st.(*ast.ReturnStmt); isR && len(rs.Results) == 1 {
+							ret = srcText(rs.Results[0])
+						}
+					}
+					for _, n := range caseNames(cc) {
+						boolCases = append(boolCases, [2]string{n, ret})
+					}
+				}
+			}
+		}
+	}
+	fmt.Fprintf(w, "def querySplitArgs : List String := %s\n", leanStrList(splitArgs))
+	fmt.Fprint(w, "def queryBoolCases : List (String × String) := [")
+	for i, bc := range boolCases {
+		if i > 0 {
+			fmt.Fprint(w, ", ")
+		}
+		fmt.Fprintf(w, "(%s, %s)", leanStr(bc[0]), leanStr(bc[1]))
+	}
+	fmt.Fprintln(w, "]")
+
 	fmt.Fprintf(w, "def codecExtractorOk : Bool := %s\n", leanBool(ok))
 	fmt.Fprintln(w, "end J5V.Generated.Codec")
 	return nil
+}
+
+// ---- helpers of the round-4 facts
+
+type ifFact struct{ cond, ret string }
+
+func srcText(n ast.Node) string {
+	var b bytes.Buffer
+	if err := printer.Fprint(&b, token.NewFileSet(), n); err != nil {
+		return "<unprintable>"
+	}
+	return strings.Join(strings.Fields(b.String()), " ")
+}
+
+func isDecimal(s string) bool {
+	if s == "" {
+		return false
+	}
+	for _, r := range s {
+		if r < '0' || r > '9' {
+			return false
+		}
+	}
+	return true
+}
+
+// bodyOutcome classifies what a block does directly (not in nested statements).
+func bodyOutcome(b *ast.BlockStmt) string {
+	out := "none"
+	for _, st := range b.List {
+		rs, isRet := st.(*ast.ReturnStmt)
+		if !isRet {
+			continue
+		}
+		switch {
+		case len(rs.Results) == 0:
+			out = "return"
+		case exprString(rs.Results[len(rs.Results)-1]) == "nil":
+			out = "nil"
+		case len(rs.Results) == 1 && isValueExpr(rs.Results[0]):
+			out = "value"
+		default:
+			out = "err"
+		}
+	}
+	return out
+}
+
+// isValueExpr: true / false / an identifier that is not an error variable (used for helpers that
+// return a plain value, e.g. queryGoValue)
+func isValueExpr(e ast.Expr) bool {
+	if id, ok := e.(*ast.Ident); ok {
+		return id.Name == "true" || id.Name == "false"
+	}
+	return false
+}
+
+func ifShape(n ast.Node) []ifFact {
+	var out []ifFact
+	ast.Inspect(n, func(x ast.Node) bool {
+		ifs, ok := x.(*ast.IfStmt)
+		if !ok {
+			return true
+		}
+		cond := srcText(ifs.Cond)
+		if ifs.Init != nil {
+			init := srcText(ifs.Init)
+			// a callback passed in the init statement is listed through its own `if`s
+			ast.Inspect(ifs.Init, func(y ast.Node) bool {
+				if fl, isFL := y.(*ast.FuncLit); isFL {
+					init = strings.Replace(init, srcText(fl), "func{…}", 1)
+					return false
+				}
+				return true
+			})
+			cond = init + "; " + cond
+		}
+		out = append(out, ifFact{cond, bodyOutcome(ifs.Body)})
+		return true
+	})
+	// plain else blocks, in source order after their if: collected in a second pass so that the
+	// order of the first list stays the order of the `if` keywords
+	ast.Inspect(n, func(x ast.Node) bool {
+		if ifs, ok := x.(*ast.IfStmt); ok {
+			if eb, isBlock := ifs.Else.(*ast.BlockStmt); isBlock {
+				out = append(out, ifFact{"else of " + srcText(ifs.Cond), bodyOutcome(eb)})
+			}
+		}
+		return true
+	})
+	return out
+}
+
+// callArgTexts: the source text of argument idx of every call of fun (as printed by exprString
+// without the argument list), in source order.
+func callArgTexts(n ast.Node, fun string, idx int) []string {
+	out := []string{}
+	ast.Inspect(n, func(x ast.Node) bool {
+		if ce, ok := x.(*ast.CallExpr); ok && exprString(ce.Fun) == fun {
+			if idx < len(ce.Args) {
+				out = append(out, srcText(ce.Args[idx]))
+			} else {
+				out = append(out, "<missing>")
+			}
+		}
+		return true
+	})
+	return out
+}
+
+// callLiteralArgs: like callArgTexts, but string literals are unquoted and anything else is "<expr>".
+func callLiteralArgs(n ast.Node, fun string, idx int) []string {
+	out := []string{}
+	ast.Inspect(n, func(x ast.Node) bool {
+		if ce, ok := x.(*ast.CallExpr); ok && exprString(ce.Fun) == fun {
+			v := "<missing>"
+			if idx < len(ce.Args) {
+				v = "<expr> " + srcText(ce.Args[idx])
+				if bl, isB := ce.Args[idx].(*ast.BasicLit); isB && bl.Kind == token.STRING {
+					if u, okU := unquote(bl.Value); okU {
+						v = u
+					}
+				}
+			}
+			out = append(out, v)
+		}
+		return true
+	})
+	return out
 }
